@@ -235,6 +235,8 @@ def run(s):
     odd_timing_inserts(s, 3 if q else 60)
     forced_types(s, 400 if q else 20000)
     K.idless_cases(s)
+    K.story_grid(s, 3, layouts=('none',), pretties=(False,), kmax=2, full=False, names=K.HOSTILE_NAMES_C)
+    K.item_grid(s, 3, pretties=(False,), kmax=2, full=False, inters=(False,), item_names=K.HOSTILE_NAMES_C)
     duplicate_id_cases(s)
 
 
